@@ -13,7 +13,7 @@ use std::time::Duration;
 const PROP: &str = "C20";
 pub const PORT: u16 = 6503;
 pub const N_STATES: usize = 13;
-pub const N_VARIANTS: usize = 6;
+pub const N_VARIANTS: usize = 7;
 
 pub const STATE_NAMES: [&str; N_STATES] = [
     "S0_no_debugger",
@@ -37,6 +37,7 @@ pub const VARIANT_NAMES: [&str; N_VARIANTS] = [
     "V4_shutdown_exit_withheld",
     "V5_dap_disconnect_before_shutdown",
     "V6_dap_disconnect_after_shutdown",
+    "V7_debugger_attaches_between_shutdown_and_exit",
 ];
 
 const LONG_PROGRAM: &str = ".test \"t\" {\n    ldx #0\nouter:\n    ldy #0\ninner:\n    iny\n    bne inner\n    inx\n    bne outer\n    brk\n}\n";
@@ -241,6 +242,7 @@ pub fn scenario(case: &Case, slot: &Arc<StdMutex<Option<Verdict>>>) {
         .expect("spawn main");
     let mut lsp = LspClient::new(w, r);
     let mut dap: Option<DapClient> = None;
+    let mut late_dap: Option<DapClient> = None;
     let state = case.state;
     let variant = case.variant;
     let setup = (|| -> Result<(), super::clients::ClientErr> {
@@ -264,6 +266,21 @@ pub fn scenario(case: &Case, slot: &Arc<StdMutex<Option<Verdict>>>) {
         }
     };
     match variant {
+        6 => {
+            // a debugger (re)attaches after `shutdown` was answered and before `exit` is sent
+            let resp = lsp.request("shutdown", Value::Null);
+            if resp.is_err() {
+                v.notes.push(format!("no response to shutdown: {:?}", resp));
+            }
+            if let Some(mut late) = DapClient::connect(PORT, 40) {
+                late.timeout = Duration::from_millis(300);
+                let _ = late.send_only("initialize", json!({"clientID": "late", "linesStartAt1": true, "columnsStartAt1": true}));
+                clock::sleep(Duration::from_micros(case.delay_us % 120_000));
+                late_dap = Some(late);
+            }
+            let _ = lsp.notify("exit", Value::Null);
+            lsp.close_pipe();
+        }
         0 | 1 | 4 | 5 => {
             if variant == 4 {
                 dap_disconnect(&mut dap);
@@ -325,6 +342,9 @@ pub fn scenario(case: &Case, slot: &Arc<StdMutex<Option<Verdict>>>) {
     if let Some(c) = dap.as_mut() {
         c.drain();
     }
+    if let Some(c) = late_dap.as_mut() {
+        c.drain();
+    }
     *slot.lock().unwrap() = Some(v);
     // process exit: whatever threads are left are killed with the process
     panic!("{} process exited", ABORT_MARKER);
@@ -368,7 +388,7 @@ fn judge(case: &Case, v: &Verdict, cell: &str) -> Option<Found> {
     }
     // V1, V2, V5, V6: status 0 required. V3 (pipe closed without shutdown): the property only asks
     // for termination, but termination by a panic (101) is not a clean one. V4: status not judged.
-    let must_be_zero = matches!(case.variant, 0 | 1 | 4 | 5);
+    let must_be_zero = matches!(case.variant, 0 | 1 | 4 | 5 | 6);
     if must_be_zero && v.status != Some(0) {
         return Some(Found {
             class: "exit_status".into(),
@@ -531,8 +551,8 @@ pub fn main(cli: &Cli) -> i32 {
         return replay(cli, p);
     }
     let per_cell = match cli.tier {
-        Tier::Quick => 30u64,
-        Tier::Thorough => 1_500u64,
+        Tier::Quick => 24u64,
+        Tier::Thorough => 1_200u64,
     };
     let n = cli.runs.unwrap_or(per_cell * (N_STATES * N_VARIANTS) as u64);
     let seed = cli.seed;
